@@ -2,6 +2,8 @@ package main
 
 // triaged by reading (findings/maporder/maporder.md): one site + one reason each
 var mapOrderExceptions = []mapOrderException{
+	{"dxil/internal/emit.Emitter.finalize:range(e.globalVarModuleVars)", "inverse of an injective map: every emitter id is allocated together with a freshly added module global (AddGlobalVar + allocValue), so no two ids carry the same *GlobalVar"},
+	{"dxil/internal/emit.Emitter.finalize:range(e.constMap)", "inverse of an injective map: every emitter id is allocated together with a freshly added module constant, behind per-value caches (intConsts / floatConsts), so no two ids carry the same *Constant"},
 	{"dxil/internal/emit.EmitWithFlags:range(e.helperFunctions)", "finalizeHelperFunction only renumbers value ids inside the one function passed in; its base is computed from module-level lengths it does not mutate: helpers are independent"},
 	{"dxil/internal/emit.collectCalledFunctions:range(result)", "callee only inserts into the same set and the enclosing loop runs to a fixed point: the result is the transitive closure in any order"},
 	{"dxil/internal/emit.Emitter.moduleUsesRayQuery:range(e.helperFunctions)", "boolean OR over a read-only predicate"},
